@@ -117,6 +117,34 @@ func c17Run(c *fw.Ctx, idx int) {
 	for _, t := range tenants {
 		subs = append(subs, &c17Sub{tenant: t, filter: "x/a", cl: shared[t]})
 	}
+	// client identifiers whose concatenation with the mount point coincides: tenant "t" with "Ashared-id"
+	// and tenant "tA" with "shared-id" are different sessions
+	for _, t := range tenants {
+		if t != "t" {
+			continue
+		}
+		for _, other := range tenants {
+			if other == "t" {
+				continue
+			}
+			cid := strings.TrimPrefix(other, "t") + "shared-id"
+			cc, err := nodes[sharedNode].MustConnect(kit.ConnectOpts{ClientID: cid, KeepAlive: 600, Clean: true, User: "t"})
+			if err != nil {
+				c.Violation("shared-client-id-refused", fmt.Sprintf("%s: tenant t could not connect with client identifier %q: %v", desc, cid, err), nil)
+				return
+			}
+			defer cc.Close()
+			if err := cc.Subscribe([]string{"x/a", "zz/end"}, []int{0, 0}); err != nil {
+				c.Inconclusive(desc + ": subscribe: " + err.Error())
+				return
+			}
+			subs = append(subs, &c17Sub{tenant: "t", filter: "x/a", cl: cc})
+			cl.StopPump()
+			cl.Quiesce()
+			cl.StartPump(3 * time.Millisecond)
+			c.Observe("client_ids_colliding_by_concatenation", 1)
+		}
+	}
 	// publishers and wills
 	type sentMsg struct {
 		tenant, topic, tag string
@@ -315,7 +343,7 @@ func c17Run(c *fw.Ctx, idx int) {
 }
 
 func runC17(c *fw.Ctx) {
-	c.Rule = "seeded scenarios with 2-3 tenants (mount points tA, tB and t - one a prefix of the others - assigned through the user name) on 1-2 nodes (+1 node that fails in node-failure scenarios): per tenant 3 subscribers with filters drawn from {#, +, +/#, x/+, x/a, +/a, x/#, tA/#, tB/x/a, tA/x/a, +/x/a}, a client with the SAME client identifier in every tenant (on one node in half of the scenarios; these run overlapping QoS 2 handshakes with the same packet identifier), a publisher sending 4 tagged publishes (one retained) on topics that include other tenants' names as first level, a session with a will that dies (connection loss, or with its node), and a late subscriber per tenant (retained replay). After per-tenant sentinel barriers: no subscriber holds a message tagged by another tenant; own-tenant messages arrive iff the filter matches, with the topic byte-identical to the published one; the shared-identifier sessions still answer PINGREQ. distinct = scenario; non-trivial = all"
+	c.Rule = "seeded scenarios with 2-3 tenants (mount points tA, tB and t - one a prefix of the others - assigned through the user name) on 1-2 nodes (+1 node that fails in node-failure scenarios): per tenant 3 subscribers with filters drawn from {#, +, +/#, x/+, x/a, +/a, x/#, tA/#, tB/x/a, tA/x/a, +/x/a}, a client with the SAME client identifier in every tenant, clients whose mount point + identifier concatenations coincide ('t'+'Ashared-id' / 'tA'+'shared-id'), (on one node in half of the scenarios; these run overlapping QoS 2 handshakes with the same packet identifier), a publisher sending 4 tagged publishes (one retained) on topics that include other tenants' names as first level, a session with a will that dies (connection loss, or with its node), and a late subscriber per tenant (retained replay). After per-tenant sentinel barriers: no subscriber holds a message tagged by another tenant; own-tenant messages arrive iff the filter matches, with the topic byte-identical to the published one; the shared-identifier sessions still answer PINGREQ. distinct = scenario; non-trivial = all"
 	c.Assume("the authentication handler maps the user name to the mount point; names contain no '/'")
 	n := c.Pick(30, 600)
 	sem := make(chan struct{}, 12)
